@@ -3,10 +3,16 @@ import MJ.Model.Fold
 # A concrete instance of the shared value operations (for the C04 driver)
 
 The C04 theorems hold for every `Prims`.  To *run* the model against the real engine the driver
-needs one concrete instance: a transcription of the parts of `value/ops.rs` and `value/mod.rs`
-(`coerce`, `add … pow`, `neg`, `string_concat`, `contains`, `PartialEq`, `Ord`, `is_true`, `Display`,
-`ValueMap` insertion) that the literal fragment reaches.  Regions that are not transcribed (integers
-at or above 2^127 in arithmetic/comparison, NaN, float `//` `%` `**`, float text) are recognised by
+needs one concrete instance: a transcription of the parts of `value/ops.rs`, `value/mod.rs`,
+`filters.rs` and `tests.rs` that the fragment reaches (`coerce`, `add … pow`, `neg`,
+`string_concat`, `contains`, `PartialEq`, `Ord`, `is_true`, `Display`/`Debug` including the text of
+floats and python style string escapes, `ValueMap` insertion, `get_item_opt`, `get_attr_fast`,
+`slice`, a few filters and tests).
+
+Floats are IEEE-754 binary64 **bit patterns**; every operation is computed exactly on
+`(sign, mantissa, exponent)` with integers and rounded once to nearest-even, so the model does not
+depend on the host's floating point.  What is not transcribed (`powf` with inexact results,
+integral floats used as indexes/repeat counts, filters outside the list) is recognised by the
 `supp*` predicates; the driver reports such cases as `unmodelled` instead of comparing them.
 -/
 namespace MJ.Fold.Conc
@@ -21,8 +27,310 @@ def chk (n : Int) : Except Err V :=
 
 def bad : Except Err V := .error .invalidOperation
 
-def toF (bits : Nat) : Float := Float.ofBits bits.toUInt64
-def ofF (x : Float) : V := .float x.toBits.toNat
+/-! ## binary64 on bit patterns -/
+
+inductive Fl where
+  | fin (neg : Bool) (m : Nat) (e : Int)   -- (-1)^neg * m * 2^e
+  | inf (neg : Bool)
+  | nan
+
+def nanBits : Nat := 0x7ff8000000000000
+def signBit : Nat := 9223372036854775808
+def two52 : Nat := 4503599627370496
+def two53 : Nat := 9007199254740992
+
+def decodeF (bits : Nat) : Fl :=
+  let neg := decide (bits / signBit % 2 = 1)
+  let ex := (bits / two52) % 2048
+  let fr := bits % two52
+  if ex = 2047 then (if fr ≠ 0 then .nan else .inf neg)
+  else if ex = 0 then .fin neg fr (-1074)
+  else .fin neg (fr + two52) ((ex : Int) - 1075)
+
+/-- `m >> s` rounded to nearest, ties to even -/
+def shrRNE (m s : Nat) : Nat :=
+  if s = 0 then m else
+  let q := m / 2 ^ s
+  let r := m % 2 ^ s
+  let half := 2 ^ (s - 1)
+  if r > half ∨ (r = half ∧ q % 2 = 1) then q + 1 else q
+
+/-- round `(-1)^neg * m * 2^e` to the nearest binary64 (ties to even, overflow to infinity) -/
+def encodeFin (neg : Bool) (m : Nat) (e : Int) : Nat :=
+  let s := if neg then signBit else 0
+  if m = 0 then s else
+  let len : Int := (Nat.log2 m + 1 : Nat)
+  let top := e + len - 1            -- exponent of the leading bit
+  if top < -1022 then
+    -- subnormal range: units of 2^-1074
+    let sh := e + 1074
+    let q := if sh ≥ 0 then m * 2 ^ sh.toNat else shrRNE m (-sh).toNat
+    s + q
+  else
+    let sh := len - 53
+    let sig := if sh ≤ 0 then m * 2 ^ (-sh).toNat else shrRNE m sh.toNat
+    let (sig, top) := if sig = two53 then (two52, top + 1) else (sig, top)
+    if top > 1023 then s + 0x7ff0000000000000
+    else s + (top + 1023).toNat * two52 + (sig - two52)
+
+def encodeF : Fl → Nat
+  | .nan => nanBits
+  | .inf neg => (if neg then signBit else 0) + 0x7ff0000000000000
+  | .fin neg m e => encodeFin neg m e
+
+def Fl.isNan : Fl → Bool
+  | .nan => true
+  | _ => false
+
+def Fl.neg : Fl → Fl
+  | .fin s m e => .fin (!s) m e
+  | .inf s => .inf (!s)
+  | .nan => .nan
+
+def sInt (neg : Bool) (m : Nat) : Int := if neg then -(m : Int) else m
+
+def addFl : Fl → Fl → Fl
+  | .nan, _ | _, .nan => .nan
+  | .inf s, .inf t => if s = t then .inf s else .nan
+  | .inf s, _ => .inf s
+  | _, .inf t => .inf t
+  | .fin s1 m1 e1, .fin s2 m2 e2 =>
+    let e := min e1 e2
+    let sum := sInt s1 (m1 * 2 ^ (e1 - e).toNat) + sInt s2 (m2 * 2 ^ (e2 - e).toNat)
+    if sum = 0 then .fin (s1 && s2) 0 e else .fin (decide (sum < 0)) sum.natAbs e
+
+def mulFl : Fl → Fl → Fl
+  | .nan, _ | _, .nan => .nan
+  | .inf s, .inf t => .inf (s != t)
+  | .inf s, .fin t m _ | .fin t m _, .inf s => if m = 0 then .nan else .inf (s != t)
+  | .fin s1 m1 e1, .fin s2 m2 e2 => .fin (s1 != s2) (m1 * m2) (e1 + e2)
+
+def divFl : Fl → Fl → Fl
+  | .nan, _ | _, .nan => .nan
+  | .inf _, .inf _ => .nan
+  | .inf s, .fin t _ _ => .inf (s != t)
+  | .fin s _ _, .inf t => .fin (s != t) 0 0
+  | .fin s1 m1 e1, .fin s2 m2 e2 =>
+    if m2 = 0 then (if m1 = 0 then .nan else .inf (s1 != s2))
+    else if m1 = 0 then .fin (s1 != s2) 0 0
+    else
+      -- at least 64 quotient bits plus a sticky bit: rounding it equals rounding the exact quotient
+      let k := 64 + Nat.log2 m2 + 1
+      let n := m1 * 2 ^ k
+      let q := n / m2
+      let sticky := if n % m2 = 0 then 0 else 1
+      .fin (s1 != s2) (2 * q + sticky) (e1 - e2 - k - 1)
+
+/-- C `fmod` (Rust `%` on `f64`): exact -/
+def fmodFl : Fl → Fl → Fl
+  | .nan, _ | _, .nan => .nan
+  | .inf _, _ => .nan
+  | .fin s m e, .inf _ => .fin s m e
+  | .fin s1 m1 e1, .fin _ m2 e2 =>
+    if m2 = 0 then .nan
+    else if m1 = 0 then .fin s1 0 e1
+    else
+      let e := min e1 e2
+      let r := (m1 * 2 ^ (e1 - e).toNat) % (m2 * 2 ^ (e2 - e).toNat)
+      .fin s1 r e
+
+/-- `f64::trunc` -/
+def truncFl : Fl → Fl
+  | .fin s m e => if e ≥ 0 then .fin s m e else .fin s (m / 2 ^ (-e).toNat) 0
+  | x => x
+
+/-- `f64::round` (half away from zero) -/
+def roundFl : Fl → Fl
+  | .fin s m e =>
+    if e ≥ 0 then .fin s m e else
+    let d := 2 ^ (-e).toNat
+    .fin s (if 2 * (m % d) ≥ d then m / d + 1 else m / d) 0
+  | x => x
+
+def absFl : Fl → Fl
+  | .fin _ m e => .fin false m e
+  | .inf _ => .inf false
+  | .nan => .nan
+
+/-- `x < 0.0` -/
+def Fl.ltZero : Fl → Bool
+  | .fin s m _ => s && m != 0
+  | .inf s => s
+  | .nan => false
+
+/-- `x > 0.0` -/
+def Fl.gtZero : Fl → Bool
+  | .fin s m _ => !s && m != 0
+  | .inf s => !s
+  | .nan => false
+
+def Fl.isFinite : Fl → Bool
+  | .fin .. => true
+  | _ => false
+
+/-- operations are "decode, compute exactly, round once" -/
+def rnd (x : Fl) : Fl := decodeF (encodeF x)
+
+def fAdd (a b : Nat) : Nat := encodeF (addFl (decodeF a) (decodeF b))
+def fSub (a b : Nat) : Nat := encodeF (addFl (decodeF a) (decodeF b).neg)
+def fMul (a b : Nat) : Nat := encodeF (mulFl (decodeF a) (decodeF b))
+def fDiv (a b : Nat) : Nat := encodeF (divFl (decodeF a) (decodeF b))
+def fMod (a b : Nat) : Nat := encodeF (fmodFl (decodeF a) (decodeF b))
+
+/-- `f64::rem_euclid`: `let r = a % b; if r < 0.0 { r + b.abs() } else { r }` -/
+def fRemEuclid (a b : Nat) : Nat :=
+  let r := fMod a b
+  if (decodeF r).ltZero then encodeF (addFl (decodeF r) (absFl (decodeF b))) else r
+
+/-- `f64::div_euclid` -/
+def fDivEuclidStd (a b : Nat) : Nat :=
+  let q := encodeF (truncFl (decodeF (fDiv a b)))
+  if (decodeF (fMod a b)).ltZero then
+    (if (decodeF b).gtZero then fSub q (encodeFin false 1 0) else fAdd q (encodeFin false 1 0))
+  else q
+
+/-- `ops::f64_div_euclid` -/
+def fDivEuclid (a b : Nat) : Nat :=
+  let q := encodeF (roundFl (decodeF (fDiv (fSub a (fRemEuclid a b)) b)))
+  if (decodeF q).isFinite then q else fDivEuclidStd a b
+
+/-- `n as f64` -/
+def fOfInt (n : Int) : Nat := encodeFin (decide (n < 0)) n.natAbs 0
+
+/-- the exactly representable cases of `powf` (x ** 0, 1 ** y, x ** n for a small positive integer
+    n with an exact result); `none` = not transcribed -/
+def fPow (a b : Nat) : Option Nat :=
+  let one := encodeFin false 1 0
+  match decodeF a, decodeF b with
+  | _, .fin _ 0 _ => some one
+  | .nan, _ | _, .nan => if a = one then some one else some nanBits
+  | .fin s m e, .fin false n ne =>
+    if a = one then some one else
+    -- y a positive integer ≤ 64 ?
+    let yInt : Option Nat :=
+      if ne ≥ 0 then some (n * 2 ^ ne.toNat)
+      else if n % 2 ^ (-ne).toNat = 0 then some (n / 2 ^ (-ne).toNat) else none
+    match yInt with
+    | some k =>
+      if k ≤ 64 then
+        let bits := encodeF (Fl.fin (s && k % 2 = 1) (m ^ k) (e * k))
+        -- exact?
+        match decodeF bits with
+        | .fin _ m' e' =>
+          let e0 := min (e * k) e'
+          if m ^ k * 2 ^ (e * k - e0).toNat = m' * 2 ^ (e' - e0).toNat then some bits else none
+        | _ => none
+      else none
+    | none => none
+  | _, _ => if a = one then some one else none
+
+/-! ### text of floats (`impl Display for f64`, `impl Debug for f64`: shortest round-trip digits) -/
+
+/-- compare `d * 10^p` with `num / den` -/
+def cmpDec (d : Nat) (p : Int) (num den : Nat) : Ordering :=
+  if p ≥ 0 then compare (d * 10 ^ p.toNat * den) num else compare (d * den) (num * 10 ^ (-p).toNat)
+
+/-- `floor(log10(num/den))` for a positive rational -/
+def floorLog10 (num den : Nat) : Int :=
+  let est : Int := (((Nat.log2 num : Int) - (Nat.log2 den : Int)) * 30103) / 100000
+  -- the estimate is within ±2; fix it up
+  let fix (n : Int) : Int :=
+    -- largest n' in [n-3, n+3] with 10^n' ≤ x
+    let cands := [3, 2, 1, 0, -1, -2, -3].map (fun (d : Int) => n + d)
+    (cands.find? fun c => cmpDec 1 c num den != .gt).getD (n - 4)
+  fix est
+
+/-- shortest decimal `(digits, p)` with `digits * 10^p` inside the rounding interval of the finite
+    positive float with decoded mantissa `m`, exponent `e` (closest to it among the shortest) -/
+def shortest (m : Nat) (e : Int) : Nat × Int :=
+  let k := if e ≥ 2 then 0 else (2 - e).toNat
+  let sc := (e + k).toNat                       -- ≥ 2
+  let x := m * 2 ^ sc
+  let den := 2 ^ k
+  let hi := x + 2 ^ (sc - 1)
+  -- below a power of two the gap is half as large (unless it is the smallest normal/subnormal)
+  let lo := if m = two52 ∧ e > -1074 then x - 2 ^ (sc - 2) else x - 2 ^ (sc - 1)
+  let incl := m % 2 = 0
+  let inside (d : Nat) (p : Int) : Bool :=
+    let a := cmpDec d p lo den
+    let b := cmpDec d p hi den
+    (a == .gt || (incl && a == .eq)) && (b == .lt || (incl && b == .eq))
+  let n10 := floorLog10 x den
+  let rec go (fuel : Nat) (kd : Nat) : Nat × Int :=
+    match fuel with
+    | 0 => (m, e)  -- unreachable: 17 digits always round-trip
+    | fuel + 1 =>
+      let p : Int := n10 - (kd - 1 : Nat)
+      -- floor(x / 10^p)
+      let dlow := if p ≥ 0 then x / (den * 10 ^ p.toNat) else (x * 10 ^ (-p).toNat) / den
+      let dhigh := dlow + 1
+      let okl := inside dlow p
+      let okh := inside dhigh p
+      if okl ∧ okh then
+        -- closer one: compare (x - dlow*10^p) with (dhigh*10^p - x)  ⇔  2x vs (dlow+dhigh)*10^p
+        match cmpDec (dlow + dhigh) p (2 * x) den with
+        | .gt => (dlow, p)
+        | .lt => (dhigh, p)
+        | .eq => (if dlow % 2 = 0 then dlow else dhigh, p)
+      else if okl then (dlow, p)
+      else if okh then (dhigh, p)
+      else go fuel (kd + 1)
+  let (d, p) := go 17 1
+  -- strip trailing zeros
+  let rec strip (fuel : Nat) (d : Nat) (p : Int) : Nat × Int :=
+    match fuel with
+    | 0 => (d, p)
+    | fuel + 1 => if d ≠ 0 ∧ d % 10 = 0 then strip fuel (d / 10) (p + 1) else (d, p)
+  strip 20 d p
+
+def zeros (n : Nat) : String := String.ofList (List.replicate n '0')
+
+/-- digits and decimal point position → plain decimal (`flt2dec::digits_to_dec_str`); `minFrac` is
+    the minimal number of fractional digits -/
+def decStr (d : Nat) (p : Int) (minFrac : Nat) : String :=
+  let ds := toString d
+  let n := ds.length
+  let exp : Int := p + n          -- value = 0.ds * 10^exp
+  if exp ≤ 0 then "0." ++ zeros (-exp).toNat ++ ds
+  else if exp ≥ n then ds ++ zeros (exp.toNat - n) ++ (if minFrac > 0 then "." ++ zeros minFrac else "")
+  else String.ofList (ds.toList.take exp.toNat) ++ "." ++ String.ofList (ds.toList.drop exp.toNat)
+
+/-- `d.ddd e<exp>` (`flt2dec::digits_to_exp_str`, lower case) -/
+def expStr (d : Nat) (p : Int) : String :=
+  let ds := toString d
+  let n := ds.length
+  let exp : Int := p + n - 1
+  let mant := if n = 1 then ds else String.ofList (ds.toList.take 1) ++ "." ++ String.ofList (ds.toList.drop 1)
+  mant ++ "e" ++ toString exp
+
+/-- `Display for Value` on `F64` -/
+def dispFloat (bits : Nat) : String :=
+  match decodeF bits with
+  | .nan => "NaN"
+  | .inf s => if s then "-inf" else "inf"
+  | .fin s m e =>
+    let body :=
+      if m = 0 then "0"
+      else let (d, p) := shortest m e; decStr d p 0
+    let body := if body.toList.contains '.' then body else body ++ ".0"
+    (if s then "-" else "") ++ body
+
+/-- `Debug for f64` (`float_to_general_debug`) -/
+def reprFloat (bits : Nat) : String :=
+  match decodeF bits with
+  | .nan => "NaN"
+  | .inf s => if s then "-inf" else "inf"
+  | .fin s m e =>
+    let body :=
+      if m = 0 then "0.0"
+      else
+        let (d, p) := shortest m e
+        -- 1e-4 ≤ |x| < 1e16 → decimal, else exponential
+        let n10 : Int := p + (toString d).length - 1
+        if n10 ≥ 16 ∨ n10 < -4 then expStr d p else decStr d p 1
+    (if s then "-" else "") ++ body
+
+/-! ## numbers -/
 
 /-- `i128::try_from(Value)` on the kinds `coerce` passes to it -/
 def asI128 : V → Option Int
@@ -30,24 +338,24 @@ def asI128 : V → Option Int
   | .int n => if n ≤ i128Max then some n else none
   | _ => none
 
-/-- `as_f64(value, lossy = true)` -/
-def asF64 : V → Option Float
-  | .bool b => some (if b then 1.0 else 0.0)
-  | .int n => some (Float.ofInt n)
-  | .float b => some (toF b)
+/-- `as_f64(value, lossy = true)` as a bit pattern -/
+def asF64 : V → Option Nat
+  | .bool b => some (if b then encodeFin false 1 0 else 0)
+  | .int n => some (fOfInt n)
+  | .float b => some b
   | _ => none
 
 inductive Co where
   | i (a b : Int)
-  | f (a b : Float)
+  | f (a b : Nat)
   | s (a b : String)
 
 /-- `coerce(a, b, lossy = true)` -/
 def coerce (a b : V) : Option Co :=
   match a, b with
   | .str x, .str y => some (.s x y)
-  | .float x, b => (asF64 b).map fun y => .f (toF x) y
-  | a, .float y => (asF64 a).map fun x => .f x (toF y)
+  | .float x, b => (asF64 b).map fun y => .f x y
+  | a, .float y => (asF64 a).map fun x => .f x y
   | a, b => match asI128 a, asI128 b with
     | some x, some y => some (.i x y)
     | _, _ => none
@@ -67,25 +375,52 @@ def add (a b : V) : Except Err V :=
   | .list xs, .list ys => .ok (.list (xs ++ ys))
   | a, b => match coerce a b with
     | some (.i x y) => chk (x + y)
-    | some (.f x y) => .ok (ofF (x + y))
+    | some (.f x y) => .ok (.float (fAdd x y))
     | some (.s x y) => .ok (.str (x ++ y))
     | none => bad
 
 def sub (a b : V) : Except Err V :=
   match coerce a b with
   | some (.i x y) => chk (x - y)
-  | some (.f x y) => .ok (ofF (x - y))
+  | some (.f x y) => .ok (.float (fSub x y))
   | _ => bad
 
-/-- `Value::as_usize` on the supported kinds -/
+/-- the integer an integral float denotes (`val as i64 as f64 == val`); magnitudes from 2^53 on are
+    not transcribed (`bigIntegralFloat`) -/
+def floatAsInt (bits : Nat) : Option Int :=
+  match decodeF bits with
+  | .fin s m e =>
+    if e ≥ 0 then some (sInt s (m * 2 ^ e.toNat))
+    else if m % 2 ^ (-e).toNat = 0 then some (sInt s (m / 2 ^ (-e).toNat)) else none
+  | _ => none
+
+def bigIntegralFloat : V → Bool
+  | .float b => match floatAsInt b with
+    | some n => decide (n.natAbs ≥ 9007199254740992)
+    | none => false
+  | _ => false
+
+/-- `Value::as_usize` -/
 def asUsize : V → Option Nat
   | .bool b => some (if b then 1 else 0)
   | .int n => if 0 ≤ n ∧ n < 18446744073709551616 then some n.toNat else none
+  | .float b => match floatAsInt b with
+    | some n => if 0 ≤ n then some n.toNat else none
+    | none => none
   | _ => none
 
 def repeatList (xs : List V) : Nat → List V
   | 0 => []
   | n + 1 => xs ++ repeatList xs n
+
+/-- `repeat_iterable`: the item count is limited like a repeated string -/
+def repeatSeq (mk : List V → V) (xs : List V) (n : V) (tuple : Bool) : Except Err V :=
+  match asUsize n with
+  | none => bad
+  | some n =>
+    if xs.length * n ≤ 100000000 ∧ (!tuple ∨ xs.length * n * 24 ≤ 100000000) then
+      .ok (mk (if xs.isEmpty then [] else repeatList xs n))
+    else bad
 
 def mul (a b : V) : Except Err V :=
   match a, b with
@@ -93,39 +428,33 @@ def mul (a b : V) : Except Err V :=
     match asUsize n with
     | none => bad
     | some n => if s.utf8ByteSize * n ≤ 100000000 then .ok (.str (String.join (List.replicate n s))) else bad
-  | .list xs, n | n, .list xs =>
-    match asUsize n with
-    | none => bad
-    | some n => .ok (.list (repeatList xs n))
-  | .tuple xs, n | n, .tuple xs =>
-    match asUsize n with
-    | none => bad
-    | some n => .ok (.tuple (repeatList xs n))
+  | .list xs, n | n, .list xs => repeatSeq .list xs n false
+  | .tuple xs, n | n, .tuple xs => repeatSeq .tuple xs n true
   | a, b => match coerce a b with
     | some (.i x y) => chk (x * y)
-    | some (.f x y) => .ok (ofF (x * y))
+    | some (.f x y) => .ok (.float (fMul x y))
     | _ => bad
 
 def div (a b : V) : Except Err V :=
   match asF64 a, asF64 b with
-  | some x, some y => .ok (ofF (x / y))
+  | some x, some y => .ok (.float (fDiv x y))
   | _, _ => bad
 
-/-- `i128::checked_div_euclid` -/
+/-- `i128::checked_div_euclid` / `f64_div_euclid` -/
 def fdiv (a b : V) : Except Err V :=
   match coerce a b with
   | some (.i x y) => if y = 0 then bad else chk (x / y)
-  | some (.f _ _) => bad  -- not transcribed (see `suppBin`)
+  | some (.f x y) => .ok (.float (fDivEuclid x y))
   | _ => bad
 
-/-- `i128::checked_rem_euclid` (`None` for a zero divisor and for `MIN % -1`) -/
+/-- `i128::checked_rem_euclid` (with `x % -1 = 0`) / `f64::rem_euclid` -/
 def rem (a b : V) : Except Err V :=
   match coerce a b with
-  | some (.i x y) => if y = 0 ∨ (x = i128Min ∧ y = -1) then bad else chk (x % y)
-  | some (.f _ _) => bad  -- not transcribed
+  | some (.i x y) => if y = 0 then bad else chk (x % y)
+  | some (.f x y) => .ok (.float (fRemEuclid x y))
   | _ => bad
 
-/-- `u32::try_from(b)` then `i128::checked_pow` -/
+/-- `u32::try_from(b)` then `i128::checked_pow` / `powf` (exact cases only) -/
 def pow (a b : V) : Except Err V :=
   match coerce a b with
   | some (.i x y) =>
@@ -134,51 +463,41 @@ def pow (a b : V) : Except Err V :=
       .ok (.int (if y = 0 then 1 else if x = 0 then 0 else if x = 1 then 1 else if y % 2 = 0 then 1 else -1))
     else if 127 < y then bad
     else chk (x ^ y.toNat)
-  | some (.f _ _) => bad  -- not transcribed
+  | some (.f x y) => match fPow x y with
+    | some r => .ok (.float r)
+    | none => bad  -- not transcribed (see `suppBin`)
   | _ => bad
 
 def neg : V → Except Err V
-  | .float b => .ok (.float (if b < 9223372036854775808 then b + 9223372036854775808 else b - 9223372036854775808))
-  | .int n => if n ≤ i128Max then chk (-n) else bad
+  | .float b => .ok (.float (if b < signBit then b + signBit else b - signBit))
+  -- the pinned special case: the literal 2^127 negates to itself
+  | .int n => if n = i128Max + 1 then .ok (.int n) else if n ≤ i128Max then chk (-n) else bad
   | _ => bad
 
-/-! ### exact numeric comparison (`coerce(.., lossy = false)` + `cmp_uncoercible_numbers`) -/
+/-! ### comparison (`coerce(.., lossy = false)` + `cmp_uncoercible_numbers`: exact) -/
 
-inductive Ex where
-  | fin (m e : Int)   -- m * 2^e
-  | pinf | ninf | nan
-
-def decodeF (bits : Nat) : Ex :=
-  let sign := bits / 9223372036854775808
-  let ex := (bits / 4503599627370496) % 2048
-  let fr := bits % 4503599627370496
-  if ex = 2047 then (if fr ≠ 0 then .nan else if sign = 1 then .ninf else .pinf)
-  else
-    let m : Int := if ex = 0 then fr else fr + 4503599627370496
-    let e : Int := (if ex = 0 then 1 else (ex : Int)) - 1075
-    .fin (if sign = 1 then -m else m) e
-
-def Ex.isNan : Ex → Bool
-  | .nan => true
-  | _ => false
-
-def exOf : V → Option Ex
-  | .bool b => some (.fin (if b then 1 else 0) 0)
-  | .int n => some (.fin n 0)
+def flOf : V → Option Fl
+  | .bool b => some (.fin false (if b then 1 else 0) 0)
+  | .int n => some (.fin (decide (n < 0)) n.natAbs 0)
   | .float b => some (decodeF b)
   | _ => none
 
-def cmpEx : Ex → Ex → Option Ordering
+def cmpFl : Fl → Fl → Option Ordering
   | .nan, _ | _, .nan => none
-  | .pinf, .pinf | .ninf, .ninf => some .eq
-  | .pinf, _ | _, .ninf => some .gt
-  | _, .pinf | .ninf, _ => some .lt
-  | .fin m1 e1, .fin m2 e2 =>
+  | .inf s, .inf t => some (if s = t then .eq else if s then .lt else .gt)
+  | .inf s, _ => some (if s then .lt else .gt)
+  | _, .inf t => some (if t then .gt else .lt)
+  | .fin s1 m1 e1, .fin s2 m2 e2 =>
     let e := min e1 e2
-    some (compare (m1 * 2 ^ (e1 - e).toNat) (m2 * 2 ^ (e2 - e).toNat))
+    some (compare (sInt s1 (m1 * 2 ^ (e1 - e).toNat)) (sInt s2 (m2 * 2 ^ (e2 - e).toNat)))
+
+/-- `f64::total_cmp` fallback of `cmp_f64` when a NaN is involved: by the bit patterns as signed
+    magnitudes (the canonical NaN is above +inf) -/
+def totalKey (bits : Nat) : Int :=
+  if bits < signBit then (bits : Int) else -((bits - signBit : Nat) : Int) - 1
 
 def kindRank : V → Nat
-  | .undef => 0 | .none => 1 | .bool _ => 2 | .int _ | .float _ => 3 | .str _ => 4
+  | .undef | .silent => 0 | .none => 1 | .bool _ => 2 | .int _ | .float _ => 3 | .str _ => 4
   | .list _ | .tuple _ => 6 | .map _ => 7 | .other _ => 9
 
 def cmpStr (a b : String) : Ordering := if a < b then .lt else if a = b then .eq else .gt
@@ -195,8 +514,8 @@ mutual
       if kindRank a ≠ kindRank b then compare (kindRank a) (kindRank b)
       else match a, b with
         | .str x, .str y => cmpStr x y
-        | a, b => match exOf a, exOf b with
-          | some x, some y => (cmpEx x y).getD .eq
+        | a, b => match flOf a, flOf b with
+          | some x, some y => (cmpFl x y).getD .eq
           | _, _ => .eq
   def cmpL : List V → List V → Ordering
     | [], [] => .eq
@@ -225,13 +544,13 @@ mutual
   /-- `PartialEq for Value` -/
   def eqV : V → V → Bool
     | .none, .none => true
-    | .undef, .undef => true
+    | .undef, .undef | .undef, .silent | .silent, .undef | .silent, .silent => true
     | .str x, .str y => x == y
     | .list xs, .list ys => eqL xs ys
     | .tuple xs, .tuple ys => eqL xs ys
     | .map xs, .map ys => xs.length == ys.length && eqM xs ys
-    | a, b => match exOf a, exOf b with
-      | some x, some y => cmpEx x y == some .eq
+    | a, b => match flOf a, flOf b with
+      | some x, some y => cmpFl x y == some .eq
       | _, _ => false
   def eqL : List V → List V → Bool
     | [], [] => true
@@ -247,7 +566,7 @@ end
 def isTrue : V → Bool
   | .bool b => b
   | .int n => n != 0
-  | .float b => b % 9223372036854775808 != 0 -- x != 0.0 (NaN is true)
+  | .float b => b % signBit != 0 -- x != 0.0 (NaN is true)
   | .str s => !s.isEmpty
   | .list xs | .tuple xs => !xs.isEmpty
   | .map xs => !xs.isEmpty
@@ -263,15 +582,43 @@ def mapInsert (k v : V) : List (V × V) → List (V × V)
 
 def mkMap (ps : List (V × V)) : V := .map (ps.foldl (fun acc p => mapInsert p.1 p.2 acc) [])
 
+/-! ### text -/
+
+def hexDigitLower (n : Nat) : Char := if n < 10 then Char.ofNat (48 + n) else Char.ofNat (87 + n)
+
+def hexPad (n width : Nat) : String :=
+  String.ofList ((List.range width).reverse.map fun i => hexDigitLower ((n / 16 ^ i) % 16))
+
+/-- `char::is_control` (general category Cc) -/
+def isControl (c : Char) : Bool := c.val < 32 || (127 ≤ c.val && c.val < 160)
+
+/-- `python_string_debug_fmt` -/
+def pyRepr (s : String) : String :=
+  let cs := s.toList
+  let quote : Char := if cs.contains '\'' && !cs.contains '"' then '"' else '\''
+  let esc (c : Char) : String :=
+    if c = '\'' ∧ quote = '\'' then "\\'"
+    else if c = '"' ∧ quote = '"' then "\\\""
+    else if c = '\\' then "\\\\"
+    else if c = '\n' then "\\n"
+    else if c = '\r' then "\\r"
+    else if c = '\t' then "\\t"
+    else if isControl c then
+      (if c.val ≤ 0xff then "\\x" ++ hexPad c.val.toNat 2
+       else if c.val ≤ 0xffff then "\\u" ++ hexPad c.val.toNat 4
+       else "\\U" ++ hexPad c.val.toNat 8)
+    else String.singleton c
+  String.singleton quote ++ String.join (cs.map esc) ++ String.singleton quote
+
 mutual
-  /-- `Debug for Value` (strings python style; only quote-free strings are supported) -/
+  /-- `Debug for Value` -/
   def reprV : V → String
-    | .undef => "undefined"
+    | .undef | .silent => "undefined"
     | .none => "None"
     | .bool b => if b then "True" else "False"
     | .int n => toString n
-    | .float _ => "?"
-    | .str s => "'" ++ s ++ "'"
+    | .float b => reprFloat b
+    | .str s => pyRepr s
     | .list xs => "[" ++ reprL xs ++ "]"
     | .tuple xs => "(" ++ reprL xs ++ (if xs.length == 1 then "," else "") ++ ")"
     | .map xs => "{" ++ reprP xs ++ "}"
@@ -288,8 +635,9 @@ end
 
 /-- `Display for Value` -/
 def dispV : V → String
-  | .undef => ""
+  | .undef | .silent => ""
   | .str s => s
+  | .float b => dispFloat b
   | v => reprV v
 
 def concat (a b : V) : V := .str (dispV a ++ dispV b)
@@ -300,21 +648,190 @@ def isInfix (p : List Char) : List Char → Bool
 
 def contains (container item : V) : Except Err V :=
   match container with
-  | .undef => .ok (.bool false)
+  | .undef | .silent => .ok (.bool false)
   | .str s => .ok (.bool (isInfix (dispV item).toList s.toList))
   | .list xs | .tuple xs => .ok (.bool (xs.any fun x => eqV x item))
   | .map xs => .ok (.bool (mapGet item xs).isSome)
   | _ => bad
+
+/-! ### item access and slices -/
+
+/-- `i64::try_from(Value)` -/
+def asI64 : V → Option Int
+  | .bool b => some (if b then 1 else 0)
+  | .int n => if -9223372036854775808 ≤ n ∧ n < 9223372036854775808 then some n else none
+  | .float b => floatAsInt b
+  | _ => none
+
+/-- the `index` helper of `get_item_opt` -/
+def indexOf (key : V) (len : Nat) : Option Nat :=
+  match asI64 key with
+  | some i => if i < 0 then (if i.natAbs ≤ len then some (len - i.natAbs) else none) else some i.toNat
+  | none => none
+
+def getItem (c key : V) : Option V :=
+  match c with
+  | .map xs => mapGet key xs
+  | .list xs | .tuple xs => (indexOf key xs.length).bind fun i => xs[i]?
+  | .str s => (indexOf key s.length).bind fun i => (s.toList[i]?).map fun ch => .str (String.singleton ch)
+  | _ => none
+
+def getAttr (c : V) (name : String) : Option V :=
+  match c with
+  | .map xs => mapGet (.str name) xs
+  | _ => none
+
+/-- CPython `PySlice_AdjustIndices` + the selected positions (what `ops::slice` computes, C09) -/
+def sliceIdx (len : Nat) (start stop : Option Int) (step : Int) : List Nat :=
+  let n : Int := len
+  let clamp (x : Option Int) (dfltPos dfltNeg : Int) : Int :=
+    match x with
+    | none => if step > 0 then dfltPos else dfltNeg
+    | some v =>
+      if v < 0 then (let w := v + n; if w < 0 then (if step < 0 then -1 else 0) else w)
+      else if v ≥ n then (if step < 0 then n - 1 else n) else v
+  let a := clamp start 0 (n - 1)
+  let b := clamp stop n (-1)
+  let cnt : Nat :=
+    if step > 0 then (if a < b then ((b - a - 1) / step + 1).toNat else 0)
+    else (if b < a then ((a - b - 1) / (-step) + 1).toNat else 0)
+  (List.range cnt).map fun (i : Nat) => (a + (i : Int) * step).toNat
+
+def pick {α : Type} (xs : List α) (is : List Nat) : List α := is.filterMap fun i => xs[i]?
+
+def slice (v start stop step : V) : Except Err V :=
+  let bound (x : V) : Except Err (Option Int) :=
+    match x with
+    | .none => .ok none
+    | x => match asI64 x with
+      | some i => .ok (some i)
+      | none => .error .invalidOperation
+  match bound start with
+  | .error e => .error e
+  | .ok a => match bound stop with
+    | .error e => .error e
+    | .ok b => match bound step with
+      | .error e => .error e
+      | .ok c =>
+        let st := c.getD 1
+        if st = 0 then bad else
+        match v with
+        | .str s => .ok (.str (String.ofList (pick s.toList (sliceIdx s.length a b st))))
+        | .undef | .silent | .none => .ok (.list [])
+        | .list xs => .ok (.list (pick xs (sliceIdx xs.length a b st)))
+        | .tuple xs => .ok (.tuple (pick xs (sliceIdx xs.length a b st)))
+        | _ => bad
+
+/-! ### callables: the harness' `kw`/`kwf`, and the builtins `default`, `length`, `abs`, `first`,
+    `divisibleby`, `defined`, `none`, `odd`, `even` -/
 
 def kwInsert (k : String) (v : V) : List (String × V) → List (String × V)
   | [] => [(k, v)]
   | (k', v') :: rest => if k < k' then (k, v) :: (k', v') :: rest
     else if k = k' then (k', v) :: rest else (k', v') :: kwInsert k v rest
 
-/-- the harness' `kw`/`kwf` callable: `[[positional…], [[name, value]… sorted by name]]` -/
-def callKw (pos : List V) (kws : List (String × V)) : Except Err V :=
+/-- `[[positional…], [[name, value]… sorted by name]]` -/
+def kwResult (pos : List V) (kws : List (String × V)) : Except Err V :=
   let m := kws.foldl (fun acc p => kwInsert p.1 p.2 acc) []
   .ok (.list [.list pos, .list (m.map fun p => .list [.str p.1, p.2])])
+
+def callKw (_m : Mode) (name : String) (pos : List V) (kws : List (String × V)) : Except Err V :=
+  if name = "kw" then kwResult pos kws else .error (.named "UnknownFunction")
+
+def isUndef : V → Bool
+  | .undef | .silent => true
+  | _ => false
+
+/-- `UndefinedBehavior::is_true` -/
+def truthy (m : Mode) (v : V) : Except Err Bool :=
+  match m, v with
+  | .strict, .undef => .error .undefinedError
+  | _, v => .ok (isTrue v)
+
+def filter (m : Mode) (name : String) (args : List V) (kws : List (String × V)) : Except Err V :=
+  if name = "kwf" then kwResult args kws
+  else match name, args, kws with
+    | "default", [v], [] => .ok (if isUndef v then .str "" else v)
+    | "default", [v, d], [] => .ok (if isUndef v then d else v)
+    | "default", [v, d, lax], [] =>
+      match truthy m lax with
+      | .error e => .error e
+      | .ok l => .ok (if isUndef v || (l && !isTrue v) then d else v)
+    | "default", _ :: _ :: _ :: _ :: _, [] => .error (.named "TooManyArguments")
+    | "length", [v], [] =>
+      (match v with
+       | .str s => .ok (.int s.length)
+       | .list xs | .tuple xs => .ok (.int xs.length)
+       | .map xs => .ok (.int xs.length)
+       | _ => bad)
+    | "abs", [v], [] =>
+      (match v with
+       | .int n => if n = i128Min then bad else .ok (.int n.natAbs)
+       | .float b => .ok (.float (b % signBit))
+       | _ => bad)
+    | "first", [v], [] =>
+      (match v with
+       | .str s => .ok (match s.toList with | [] => .undef | c :: _ => .str (String.singleton c))
+       | .list xs | .tuple xs => .ok (xs.headD .undef)
+       | .map xs => .ok (match xs with | [] => .undef | (k, _) :: _ => k)
+       | _ => bad)
+    | "string", [v], [] =>
+      -- `assert_value_not_undefined`, then `to_string` unless already a string
+      (match m, v with
+       | .strict, .undef | .semiStrict, .undef => .error .undefinedError
+       | _, .str s => .ok (.str s)
+       | _, v => .ok (.str (dispV v)))
+    | "list", [v], [] =>
+      -- `UndefinedBehavior::try_iter` (its error is wrapped into InvalidOperation), collected
+      (match m, v with
+       | .strict, .undef | .semiStrict, .undef => bad
+       | _, .undef | _, .silent | _, .none => .ok (.list [])
+       | _, .str s => .ok (.list (s.toList.map fun c => .str (String.singleton c)))
+       | _, .list xs | _, .tuple xs => .ok (.list xs)
+       | _, .map xs => .ok (.list (xs.map (·.1)))
+       | _, _ => bad)
+    | _, _, _ => .error (.named "unmodelled")
+
+/-- `i128::try_from(Value)` including integral floats -/
+def tryI128 : V → Option Int
+  | .float b => floatAsInt b
+  | v => asI128 v
+
+def test (m : Mode) (name : String) (args : List V) (kws : List (String × V)) : Except Err Bool :=
+  match name, args, kws with
+  | "defined", [v], [] => .ok (!isUndef v)
+  | "none", [v], [] => .ok (match v with | .none => true | _ => false)
+  | "odd", [v], [] => .ok (match tryI128 v with | some x => x % 2 != 0 | none => false)
+  | "even", [v], [] => .ok (match tryI128 v with | some x => x % 2 == 0 | none => false)
+  | "number", [v], [] => .ok (match v with | .int _ | .float _ => true | _ => false)
+  | "integer", [v], [] => .ok (match v with | .int _ => true | _ => false)
+  | "float", [v], [] => .ok (match v with | .float _ => true | _ => false)
+  | "string", [v], [] => .ok (isStr v)
+  | "eq", [v, o], [] => .ok (eqV v o)
+  | "lt", [v, o], [] => .ok (cmpV v o == .lt)
+  | "in", [v, o], [] =>
+    -- `assert_iterable(other)`, then `contains(other, value)`; an error counts as "not contained"
+    (match m, o with
+     | .strict, .undef | .semiStrict, .undef => .error .undefinedError
+     | _, o => .ok (match contains o v with | .ok r => isTrue r | .error _ => false))
+  | "divisibleby", [v, o], [] =>
+    -- `coerce(v, other, lossy = false)`
+    (match v, o with
+     | .float _, _ | _, .float _ =>
+       (match flOf v, flOf o with
+        | some x, some y =>
+          -- the integer side must convert exactly; then `(a % b) == 0.0`
+          let exact (w : V) : Bool := match w with
+            | .int n => cmpFl (decodeF (fOfInt n)) (.fin (decide (n < 0)) n.natAbs 0) == some .eq
+            | _ => true
+          if exact v && exact o then
+            .ok (match fmodFl x y with | .fin _ 0 _ => true | _ => false)
+          else .ok false
+        | _, _ => .ok false)
+     | v, o => match asI128 v, asI128 o with
+       | some a, some b => .ok (b != 0 && a.tmod b == 0)
+       | _, _ => .ok false)
+  | _, _, _ => .error (.named "unmodelled")
 
 def prims : Prims where
   add := add
@@ -331,13 +848,14 @@ def prims : Prims where
   contains := contains
   isTrue := isTrue
   mkMap := mkMap
+  getAttr := getAttr
+  getItem := getItem
+  slice := slice
   callKw := callKw
+  filter := filter
+  test := test
 
 /-! ### which primitive applications are transcribed faithfully -/
-
-def bigInt : V → Bool
-  | .int n => decide (n > i128Max)
-  | _ => false
 
 def isFloat : V → Bool
   | .float _ => true
@@ -348,29 +866,10 @@ def isNaN : V → Bool
   | _ => false
 
 mutual
-  /-- contains a float / an integer ≥ 2^127 / a string with a quote, backslash or control character
-      anywhere (text of floats and escaped strings is not transcribed; big integers compare oddly) -/
-  def hasHard : V → Bool
-    | .float _ => true
-    | .int n => decide (n > i128Max)
-    | .str s => s.toList.any fun c => c == '\'' || c == '"' || c == '\\' || c.val < 32 || c.val == 127
-    | .list xs | .tuple xs => hasHardL xs
-    | .map xs => hasHardP xs
-    | .other _ => true
-    | _ => false
-  def hasHardL : List V → Bool
-    | [] => false
-    | x :: xs => hasHard x || hasHardL xs
-  def hasHardP : List (V × V) → Bool
-    | [] => false
-    | (k, v) :: xs => hasHard k || hasHard v || hasHardP xs
-end
-
-mutual
-  /-- NaN or an integer ≥ 2^127 anywhere: equality/ordering not transcribed -/
+  /-- a NaN anywhere: `cmp_f64` falls back to the total order of the raw bits, which the canonical
+      NaN of the value dump does not determine -/
   def hasOdd : V → Bool
     | .float b => (decodeF b).isNan
-    | .int n => decide (n > i128Max)
     | .list xs | .tuple xs => hasOddL xs
     | .map xs => hasOddP xs
     | .other _ => true
@@ -383,31 +882,21 @@ mutual
     | (k, v) :: xs => hasOdd k || hasOdd v || hasOddP xs
 end
 
-/-- an integer operand that converts to `f64` exactly as the driver's `Float.ofInt` does -/
-def smallForFloat : V → Bool
-  | .int n => decide (-18446744073709551616 < n ∧ n < 18446744073709551616)
-  | _ => true
-
 def suppArith (op : BinOp) (a b : V) : Bool :=
-  if bigInt a || bigInt b then false
-  else if isNaN a || isNaN b then false
-  else match op with
-    | .add | .sub => !((isFloat a || isFloat b) && !(smallForFloat a && smallForFloat b))
-    | .mul =>
-      if (isFloat a || isFloat b) then
-        -- `as_usize` accepts integral floats as repeat counts: not transcribed
-        !isStr a && !isStr b && !isSeq a && !isSeq b && smallForFloat a && smallForFloat b
-      else true
-    | .div => smallForFloat a && smallForFloat b
-    | .fdiv | .rem | .pow => !(isFloat a || isFloat b)
-    | _ => true
+  match op with
+  | .mul => !((bigIntegralFloat a && (isStr b || isSeq b)) || (bigIntegralFloat b && (isStr a || isSeq a)))
+  | .pow =>
+    (match coerce a b with
+     | some (.f x y) => (fPow x y).isSome
+     | _ => true)
+  | _ => true
 
 def suppBin (op : BinOp) (a b : V) : Bool :=
   match op with
   | .add | .sub | .mul | .div | .fdiv | .rem | .pow => suppArith op a b
-  | .cat => !hasHard a && !hasHard b
+  | .cat => true
   | .eq | .ne | .lt | .le | .gt | .ge => !hasOdd a && !hasOdd b
-  | .in_ => !hasOdd a && !hasOdd b && !(isStr b && hasHard a)
+  | .in_ => !hasOdd a && !hasOdd b
   | .and | .or => true
 
 def suppCmp (op : CmpOp) (a b : V) : Bool :=
@@ -415,6 +904,22 @@ def suppCmp (op : CmpOp) (a b : V) : Bool :=
   | .in_ | .notIn => suppBin .in_ a b
   | _ => !hasOdd a && !hasOdd b
 
-def suppNeg (a : V) : Bool := !bigInt a && !isNaN a
+def suppNeg (_a : V) : Bool := true
+
+/-- integral floats from 2^53 on as indexes / bounds are not transcribed -/
+def suppGetItem (c key : V) : Bool :=
+  !hasOdd key && !hasOdd c && !bigIntegralFloat key
+
+def suppSlice (_v a b c : V) : Bool := !bigIntegralFloat a && !bigIntegralFloat b && !bigIntegralFloat c
+
+def suppFilter (name : String) (args : List V) (kws : List (String × V)) : Bool :=
+  match filter .lenient name args kws with
+  | .error (.named "unmodelled") => false
+  | _ => true
+
+def suppTest (name : String) (args : List V) (kws : List (String × V)) : Bool :=
+  match test .lenient name args kws with
+  | .error (.named "unmodelled") => false
+  | _ => !(args.any hasOdd) && !((name == "odd" || name == "even") && args.any bigIntegralFloat)
 
 end MJ.Fold.Conc
